@@ -121,6 +121,9 @@ def oracle(case, out):
         for e in info['expect']:
             if e not in names:
                 return '%s: %s expected among the errors, got %s' % (which, e, names[:6])
+        for e in info['forbid']:
+            if e in names:
+                return '%s: %s reported although the reference graph has no cycle / stays below the limit: %s' % (which, e, names[:6])
         if names.count('TooManyPlaceables') > 1:
             return '%s: TooManyPlaceables reported %d times' % (which, names.count('TooManyPlaceables'))
     return None
